@@ -11,8 +11,9 @@ ASSUMPTIONS = [
     'bounds as C01: <= 3 tables, K-character holes, <= 3 symbolic selectors per instance',
 ]
 
-QNAME = Cls('NARROW', minus='"')
-TEXT = Cls('ASCII', minus='\\', plus='é')
+# U+212B (ANGSTROM SIGN) and U+0301 (combining acute) are text that is not in a Unicode normal form: it must come back code point for code point
+QNAME = Cls('NARROW', minus='"', plus='\u212b\u0301')
+TEXT = Cls('ASCII', minus='\\', plus='é\u212b\u0301')
 
 
 def _has_space_like(t):
@@ -254,6 +255,33 @@ def api_column(dk, K, fix=None):
     return Harness(body, args, describe=lambda a: dict(_rt_detail(build(a)), default_kind=dk), bounds={'default': dk, 'K': K}, fixed=fix)
 
 
+TYPE_SHAPES = ['a.b', 'a.b(1, 2)', 'a.b[]', 'a.b.c', 'a(1)[]', 'a b', 'a[]', 'a(x y)', 'a.b c', '1.5', 'a()', 'varchar(10)', 'é', 'a-b', 'a[1]',
+               'a.(b)', '(a)']
+
+
+def api_type(K):
+    """column types: a list of shapes mixing dots, arguments and brackets (fanned by a selector) and a K-character type over the
+    characters that decide between the bare and the quoted spelling"""
+    from harness.common import Enum as En, IntRange as IR
+    args = [('shape', IR(0, len(TYPE_SHAPES))), ('second', 'bool')] + hole_args('y', K, En('a.()[] 1'))
+
+    def build(a):
+        from pydbml import Database
+        from pydbml.classes import Table, Column
+        typ = text_of(a, 'y', K) if a['shape'] == len(TYPE_SHAPES) else TYPE_SHAPES[a['shape']]
+        cols = [Column('c', typ, not_null=True)]
+        if a['second']:
+            cols.append(Column('d', typ, default=1))
+        db = Database()
+        db.add(Table('t', columns=cols))
+        return db
+
+    def body(a):
+        return _roundtrip(build(a))
+
+    return Harness(body, args, describe=lambda a: dict(_rt_detail(build(a))), bounds={'K': K, 'shapes': TYPE_SHAPES})
+
+
 def instances(tier):
     out = []
 
@@ -283,6 +311,8 @@ def instances(tier):
         if quick and i['factory'] == 'table':
             pp_['fix'] = dict(p['fix'], h_alias=True)      # three parses per path: one selector fewer than in C01
         add('parsed/' + i['name'], 'parsed', {'factory': i['factory'], 'params': pp_}, T1 if quick else 6000, vacuous_if=vac)
+    if not any(i['name'] == 'parsed/numbers' for i in out):
+        add('parsed/numbers', 'parsed', {'factory': 'numbers', 'params': {'case': 'same'}}, T1)
     for which in ('column', 'item', 'enum', 'ref', 'group', 'project', 'sticky'):
         fx = None if (which == 'enum' or not quick) else {'schema': 1 if which in ('column', 'item') else 0}
         add(f'api/names/{which}/K{1 if quick else 2}', 'api_names', {'K': 1 if quick else 2, 'which': which, 'fix': fx}, T1)
@@ -290,6 +320,7 @@ def instances(tier):
         add(f'api/table_names/{i}', 'api_table_names', {'i': i}, T1)
     for site in ('table', 'sticky', 'project', 'group'):
         add(f'api/note/{site}/K{3 if quick else 4}', 'api_note', {'site': site, 'K': 3 if quick else 4}, T1)
+    add(f'api/type/K{2 if quick else 3}', 'api_type', {'K': 2 if quick else 3}, T1)
     fixes = [{'pk': True, 'un': False}, {'pk': False, 'un': True}]
     for j, dk in enumerate(DEFAULTS):
         vac = ['c02_falsy_default_dropped'] if dk in ('zero', 'false', 'empty') else []
